@@ -3,6 +3,7 @@ package main
 // Replay of failed obligations on the real code: an in-package test injected with `go test -overlay`.
 
 import (
+	"sort"
 	"context"
 	"encoding/json"
 	"fmt"
@@ -144,7 +145,7 @@ func runHarness(h replayHarness, req map[string]interface{}, tag string) (map[st
 
 // tryReplay searches for a concrete failing input of a failed obligation on the real code.
 func tryReplay(pc *PropConfig, o *Obligation, rep map[string]interface{}, seed int) bool {
-	if o.Kind == "canary" || o.Kind == "engine" {
+	if o.Kind == "canary" || (o.Kind == "engine" && !strings.Contains(o.Name, "/engine:error")) {
 		rep["replay"] = "not applicable for " + o.Kind + " obligations"
 		return false
 	}
@@ -153,8 +154,18 @@ func tryReplay(pc *PropConfig, o *Obligation, rep map[string]interface{}, seed i
 		rep["replay"] = "no replay harness for this function"
 		return false
 	}
+	oblName := o.Name
+	if o.Kind == "engine" {
+		// the engine could not process the function (e.g. a new helper outside the subset): nothing was decided by proof;
+		// the harness still searches the real function for an input that violates any clause of its oracles
+		oblName = ""
+	}
 	req := map[string]interface{}{
-		"obligation": o.Name, "func": funcOfObligation(o.Name), "numbers": modelNumbers(o.Model), "seed": seed, "budget": 30000,
+		"obligation": oblName, "func": funcOfObligation(o.Name), "numbers": modelNumbers(o.Model), "seed": seed, "budget": 30000,
+	}
+	if o.Kind == "engine" && currentVC != nil {
+		// only violations of clauses that carry THIS property count as its counterexample
+		req["clauses"] = clauseNamesFor(currentVC, pc.ID)
 	}
 	res, text, err := runHarness(h, req, sanitize(o.Name))
 	rep["replay_harness"] = hname
@@ -218,4 +229,46 @@ func cmdReplay(args []string) {
 		os.Exit(1)
 	}
 	fmt.Println("the recorded input no longer violates the clause")
+}
+
+// currentVC is the verifier state of the running check (set by cmdCheck)
+var currentVC *VC
+
+// clauseNamesFor: names of all named clauses (ensures, requires, invariants, event assertions) tagged with the property
+func clauseNamesFor(vc *VC, id string) []string {
+	seen := map[string]bool{}
+	add := func(c *Clause) {
+		if c == nil || c.Name == "" {
+			return
+		}
+		for _, t := range c.Tags {
+			if t == id {
+				seen[c.Name] = true
+			}
+		}
+	}
+	for _, c := range vc.contracts {
+		for _, e := range c.Requires {
+			add(e)
+		}
+		for _, e := range c.Ensures {
+			add(e)
+		}
+		for _, l := range c.Loops {
+			for _, e := range l.Invariants {
+				add(e)
+			}
+		}
+	}
+	for _, ev := range vc.events {
+		for _, gs := range ev.Stmts {
+			add(gs.Assert)
+		}
+	}
+	var out []string
+	for n := range seen {
+		out = append(out, n)
+	}
+	sort.Strings(out)
+	return out
 }
